@@ -27,7 +27,7 @@ LEVEL = "exploration"
 RULE = (
     "Projects as in C01 (all source kinds, defects, binaries, names with spaces / non-ASCII, Git or not) with expression depth <= 2 (AND / OR / WITH "
     "nesting, several expressions per file), optionally one file padded to a size in {1, 8191, 8192, 8193, 16384, 16385, 24577, 65535, 65536, 65537, 131073, 200001} bytes, optionally a "
-    "byte-identical copy of a file under the same base name in another directory, LicenseRef- texts (multi-line, non-ASCII), optionally one more unused LicenseRef- text (names containing 'Unknown', other extensions); options: "
+    "byte-identical copy of a file under the same base name in another directory, LicenseRef- texts (multi-line, non-ASCII), optionally one more unused LicenseRef- text (names containing 'Unknown', other extensions); started in the project root or from an unrelated directory (holding LICENSES/ of its own) with --root; options: "
     "--add-license-concluded (with --creator-person / --creator-organization, with and without '(...)'), -o FILE, worker pool on/off.  Oracle: "
     "independent tag-value reader; FileName set = lint's file set; SPDXIDs unique and in bijection with DESCRIBES; FileChecksum = hashlib.sha1; "
     "LicenseInfoInFile set and FileCopyrightText lines = lint's; LicenseConcluded NOASSERTION / NONE / truth-table-equivalent to the conjunction; "
@@ -60,7 +60,9 @@ def case(draw):
     if extra is not None and not any(r.rsplit(".", 1)[0] == extra.rsplit(".", 1)[0] or r == extra for r in state["licenses"]):
         state = dict(state, licenses=state["licenses"] + [extra])
     return {"state": state, "pad": pad, "dup": dup, "concluded": concluded, "person": person, "org": org,
-            "outfile": draw(st.sampled_from([None, None, "out.spdx", "sub dir/bom.spdx"])), "mp": draw(st.integers(0, 4)) == 0}
+            "outfile": draw(st.sampled_from([None, None, "out.spdx", "sub dir/bom.spdx"])), "mp": draw(st.integers(0, 4)) == 0,
+            # where the command is started: in the project root, or somewhere else with --root <absolute path>
+            "cwd": draw(st.sampled_from(["root", "root", "outside"]))}
 
 
 def check(ctx, c):
@@ -102,14 +104,20 @@ def check(ctx, c):
         if c["org"]:
             args += ["--creator-organization", c["org"]]
         if c["outfile"]:
-            args += ["-o", c["outfile"]]
-        res = cli.run(args, root)
+            args += ["-o", c["outfile"] if c.get("cwd") != "outside" else str(root / c["outfile"])]
+        run_cwd = root
+        if c.get("cwd") == "outside":
+            run_cwd = ctx.fresh_dir("elsewhere")
+            (run_cwd / "LICENSES").mkdir()
+            (run_cwd / "LICENSES" / "LicenseRef-spare.txt").write_text("text of an unrelated project\n")
+            args = ["--root", str(root), *args]
+        res = cli.run(args, run_cwd)
         lint_files = {f["path"]: f for f in lint["files"]}
         nexpr = max((len(f["spdx_expressions"]) for f in lint["files"]), default=0)
         has_with = any(" WITH " in e["value"] for f in lint["files"] for e in f["spdx_expressions"])
-        ctx.count({"state": state, "opts": {k: c[k] for k in ("concluded", "person", "org", "outfile", "mp")}},
+        ctx.count({"state": state, "opts": {k: c[k] for k in ("concluded", "person", "org", "outfile", "mp", "cwd") if k in c}},
                   nontrivial=len(lint_files) >= 2 and (nexpr >= 2 or has_with) and c["concluded"],
-                  labels=[f"concluded:{c['concluded']}", f"creator:{bool(c['person'] or c['org'])}", f"outfile:{bool(c['outfile'])}", f"pad:{c['pad'][1] if c['pad'] else None}",
+                  labels=[f"concluded:{c['concluded']}", f"creator:{bool(c['person'] or c['org'])}", f"outfile:{bool(c['outfile'])}", f"cwd:{c.get('cwd', 'root')}", f"pad:{c['pad'][1] if c['pad'] else None}",
                           f"dup:{c['dup'] is not None}", f"max-expr-per-file:{min(nexpr, 3)}", f"with:{has_with}"],
                   sample={"files": sorted(lint_files), "options": args, "defects": state["defects"]})
         if res.crash is not None:
